@@ -116,6 +116,7 @@ warnings.simplefilter("ignore")
 import pydrobert.speech.alias as _al
 assert os.path.realpath(_al.__file__).startswith(os.path.realpath(src)), _al.__file__
 from pydrobert.speech.alias import AliasedFactory, alias_factory_subclass_from_arg
+from pydrobert.speech import AliasedFactory as ShimAliasedFactory   # the deprecated re-export: same behaviour promised
 
 def enc(v):
     if isinstance(v, str):
@@ -143,11 +144,13 @@ def build_mapping(kind, items):
     return ROMapping(items)
 
 out = []
-for forest in json.load(sys.stdin):
+for fi, forest in enumerate(json.load(sys.stdin)):
     classes, keyof, phases_out = {}, {}, []
+    # every fourth family is declared through the package-level (deprecated) AliasedFactory
+    Root = ShimAliasedFactory if fi % 4 == 1 else AliasedFactory
     for phase in forest["phases"]:
         for nd in phase["create"]:
-            base = AliasedFactory if nd["parent"] is None else classes[nd["parent"]]
+            base = Root if nd["parent"] is None else classes[nd["parent"]]
             ns = {"__init__": _init, "__module__": "c08synthetic"}
             if nd["aliases"] is not None:
                 ns["aliases"] = set(nd["aliases"])
@@ -155,7 +158,7 @@ for forest in json.load(sys.stdin):
             classes[nd["k"]] = cls
             keyof[id(cls)] = nd["k"]
         def dump(cls):
-            return {"id": keyof[id(cls)], "aliases": sorted(cls.aliases),
+            return {"id": keyof[id(cls)], "aliases": sorted(getattr(cls, "aliases", None) or []),
                     "subs": [dump(s) for s in cls.__subclasses__()]}
         tree = dump(classes[forest["root"]])
         answers = []
@@ -570,15 +573,15 @@ def live_registry(ctx, driver_lines, expect):
     all_aliases = set()
     for _, fc, _ in fams:
         for c in descendants(fc):
-            all_aliases |= set(c.aliases)
+            all_aliases |= set(getattr(c, 'aliases', None) or ())
     for fname, fc, mod in fams:
         fam_aliases = set()
         for c in descendants(fc):
-            fam_aliases |= set(c.aliases)
+            fam_aliases |= set(getattr(c, 'aliases', None) or ())
             if inspect.isabstract(c):
                 continue
             kw = ctor_kwargs(c)
-            for a in sorted(c.aliases):
+            for a in sorted(getattr(c, 'aliases', None) or ()):
                 case = dict(kind="registry", family=fname, cls=qual(c), alias=a)
                 ctx.case(case, kind="registry_alias")
                 if kw is None:
